@@ -167,7 +167,8 @@ impl Ctx {
 
     /// Minimised past failures / disagreements, one `label\tinput` per line; run first.
     pub fn run_corpus(&mut self) {
-        let path = format!("/verif/corpus/{}.txt", self.prop);
+        let root = std::env::var("VERIF_ROOT").unwrap_or_else(|_| "/verif".to_string());
+        let path = format!("{root}/corpus/{}.txt", self.prop);
         if let Ok(text) = std::fs::read_to_string(&path) {
             for line in text.lines() {
                 if line.starts_with('#') || line.trim().is_empty() {
